@@ -20,4 +20,4 @@ type Trial struct {
 // Lazy operations: their first call builds a package-level table.
 var Lazy = []string{"From16", "To16", "DecodeTyped", "LineariseColor", "EncodeColor"}
 
-var All = []string{"From16", "To16", "From8To8", "LineariseColor", "EncodeColor", "DecodeTyped", "LineariseImage", "EncodeImage", "ConvertImage", "Load", "LoadFamily", "LoadFamily", "Adapt", "ToXYZ", "Primaries", "Profile", "TransformBig", "LoadBad", "LoadBad", "TransformTyped", "TransformTyped"}
+var All = []string{"From16", "To16", "From8To8", "LineariseColor", "EncodeColor", "DecodeTyped", "LineariseImage", "EncodeImage", "ConvertImage", "Load", "LoadFamily", "LoadFamily", "Adapt", "ToXYZ", "Primaries", "Profile", "TransformBig", "LoadBad", "LoadBad", "TransformTyped", "TransformTyped", "TileTransform", "TileTransform"}
